@@ -224,6 +224,12 @@ def judge_c05(scn, result):
             continue
         for j in range(i + 1, len(hist)):
             g = hist[j]
+            if g[0] == "enq" and g[1] != "STOP" and removed[0] is None and (removed[1] is None or removed[1] == int(g[1])):
+                # the emitter of an unscheduled watch has stopped producing events
+                resched = any(r[0] == "ret" and r[3] == "ok" and op_of(r[1], int(r[2]))[0] in ("schedule", "start")
+                              for r in hist[i + 1:])
+                if not resched:
+                    return f"emitter of watch {g[1]} queued an event after {op} had returned (history positions {i} < {j})"
             if g[0] == "call":
                 h, w = int(g[1]), int(g[2])
                 if (removed[0] is None or removed[0] == h) and (removed[1] is None or removed[1] == w):
@@ -323,6 +329,30 @@ def run(res, tier, lean, prop="C04", proof_breaks=(), build_log=""):
     res.notes["programs"] = len(scns)
     res.sample({"request": lines[1], "implementation": impl[1], "model": outs[1]})
     res.sample({"request": lines[-1], "implementation": impl[-1], "model": outs[-1]})
+    if bad and not judged:
+        # the correspondence is broken but no explored run violated the property: search the neighbourhood of the
+        # mismatching programs on the REAL code with the judges as oracle (more schedules, higher preemption bound)
+        seen_prog = []
+        for b in bad:
+            if b[3] not in [n for n, _ in seen_prog]:
+                seen_prog.append((b[3], b[4]))
+        searched = 0
+        for name, scn in seen_prog[:12]:
+            run_one = obs_scenario.make_run(scn)
+            info = {}
+            runs = list(explore.dfs(run_one, 3, 300, info)) + list(explore.random_runs(run_one, r, 100, 0.7))
+            # line-level preemption: races inside what the model treats as one step
+            run_lp = obs_scenario.make_run(scn, line_preempt=True)
+            runs += list(explore.random_runs(run_lp, r, 150, 0.1))
+            for sched, result in runs:
+                searched += 1
+                for jf in judges:
+                    v = jf(scn, result)
+                    if v:
+                        judged.append((request(scn, result["schedule"]), result["line"], "(not replayed)", name, scn, v))
+            if judged:
+                break
+        res.notes["failing_input_search_runs"] = searched
     if judged:
         judged.sort(key=lambda b: len(b[0]))
         groups = {}
